@@ -92,7 +92,8 @@ def step (s : St) (line : String) : St × String :=
   | ["sha", d] => (s, hexOut (H.sha (unhex d)))
   | ["obj.new", k, d] =>
     let data := unhex d
-    (s, hexOut (Obj.id H (kindOf k) data) ++ " " ++ hexOut (Obj.encode (kindOf k) data))
+    let i := Obj.id H (kindOf k) data
+    ({ s with store := (i, Obj.encode (kindOf k) data) :: s.store }, hexOut i ++ " " ++ hexOut (Obj.encode (kindOf k) data))
   | ["obj.get", i] =>
     (s, resOut (fun kd => kindOut kd.1 ++ " " ++ hexOut kd.2) (Store.get H s.fn (unhex i)))
   | ["readhash", h] => (s, match readHash (unhex h) with | some b => "ok " ++ hexOut b | none => "err")
@@ -161,9 +162,10 @@ def step (s : St) (line : String) : St × String :=
     (s, match Config.parse (unhex l), Config.parse (unhex g) with
         | some lc, some gc => s!"ok {Config.isUserSet lc gc} {hexOut (Config.userField lc gc (asc "name"))} {hexOut (Config.userField lc gc (asc "email"))}"
         | _, _ => "err")
-  | ["ignore.match", f, t] =>
+  | ["ignore.match", f, p, kind] =>
     let ls := Ignore.lines (if f == "none" then none else some (unhex f))
-    (s, if ls.all Ignore.lineOK then toString (Ignore.matchesTarget ls (unhex t)) else "unsupported")
+    let t := Ignore.target (unhex p) (kind == "file" || kind == "dir") (kind == "dir") (kind == "tracked")
+    (s, if ls.all Ignore.lineOK then toString (Ignore.matchesTarget ls t) else "unsupported")
   | _ => (s, "bad-op")
 
 partial def loop (h : IO.FS.Stream) (out : IO.FS.Stream) (s : St) : IO Unit := do
